@@ -48,6 +48,16 @@ def jsonable(o):
     return repr(o)
 
 
+def load_known():
+    fs = list(json.load(open(os.path.join(VERIF, "known_findings.json")))["findings"])
+    d = os.path.join(VERIF, "known_findings.d")
+    if os.path.isdir(d):
+        for fn in sorted(os.listdir(d)):
+            if fn.endswith(".json"):
+                fs += json.load(open(os.path.join(d, fn)))["findings"]
+    return fs
+
+
 class Ctx:
     def __init__(self, pid, tier, seed, repo, overlay_dir):
         self.pid = pid
@@ -63,8 +73,7 @@ class Ctx:
         self.replays = []
         self.assumptions = []
         self._viol_sigs = {}
-        kf = json.load(open(os.path.join(VERIF, "known_findings.json")))
-        self.known = [f for f in kf["findings"] if f["property"] == pid and f.get("status") == "known"]
+        self.known = [f for f in load_known() if f["property"] == pid and f.get("status") == "known"]
         self.scratch = os.path.join(os.environ.get("VERIF_SCRATCH", "/dev/shm"), "verif-%s-%d" % (pid, os.getpid()))
         os.makedirs(self.scratch, exist_ok=True)
 
